@@ -204,18 +204,19 @@ def _from_str_witnesses():
 
 
 def c12(tier, seed):
-    units = [("layout", None, r"^(safety|decreases.*)$"), ("bf_alloc", None, r"^(safety|decreases.*)$"), ("macro_type", None, r"^safety$"),
+    units = [("gen_errors", None, None), ("layout", None, r"^(safety|decreases.*)$"), ("bf_alloc", None, r"^(safety|decreases.*)$"), ("macro_type", None, r"^safety$"),
              ("edges", None, r"^safety$"), ("derive_gate", None, r"^safety$"), ("derives", None, r"^safety$"), ("fn_abi", None, r"^safety$"), ("constrain", None, r"^safety$"), ("prim_types", None, r"^safety$"), ("packed", None, r"^(safety|decreases.*)$"), ("blocklist", None, r"^safety$"), ("has_float", None, r"^safety$"), ("has_tp_array", None, r"^safety$"), ("has_destructor", None, r"^safety$"), ("lattice_insert", None, r"^safety$")]
     return _verus_prop("C12", tier, seed, units, {
         "trusted_base": LAYOUT_TRUST + ["alloc::fmt::format stubbed in the from_str witness harnesses (message text irrelevant)"],
-        "functions_under_contract": LAYOUT_FNS + ["bindgen/ir/comp.rs: bitfields_to_allocation_units (no-clang-offset mode)", "and the functions of units macro_type, edges, derive_gate, derives, fn_abi (see C05, C07-C09, C14)"],
+        "functions_under_contract": ["bindgen/lib.rs: the input-path checks of Bindings::generate (missing -> NotExist, directory -> FolderAsHeader, unreadable -> InsufficientPermissions; file system uninterpreted) and the per-diagnostic step of parse() (severity Error or Fatal -> ClangDiagnostic error) -- blocks extracted by rule R18, unit gen_errors"] + LAYOUT_FNS + ["bindgen/ir/comp.rs: bitfields_to_allocation_units (no-clang-offset mode)", "and the functions of units macro_type, edges, derive_gate, derives, fn_abi (see C05, C07-C09, C14)"],
         "assumptions": [
+            "error values: the two specific-error mechanisms of the property (input path, clang diagnostics) as postconditions over an uninterpreted file system / libclang",
             "panic-freedom (no arithmetic overflow/underflow, division by zero, unwrap on None, failed precondition of a callee) and loop termination of the functions under contract, under the preconditions inv() && small() && valid_layout(..)",
             "RustTarget::from_str: three concrete-input witness harnesses only (bounded, not counted as proved)",
         ],
         "bounds": "from_str witnesses: concrete strings \"1.0-nightly\", \"1.0.0-nightly\", \"1.83.1-nightly\", \"nightly\", \"1.71\"",
         "unverified": [
-            "the several hundred expect/unwrap/unreachable!/assert! sites whose preconditions are shapes of the libclang AST; termination and stack depth of the IR walkers; error paths of Builder::generate (file system, libclang)",
+            "the several hundred expect/unwrap/unreachable!/assert! sites whose preconditions are shapes of the libclang AST; termination and stack depth of the IR walkers; everything libclang does (seed S19: a visitor callback in clang.rs)",
         ]}, extra_obs=_from_str_witnesses)
 
 
